@@ -175,6 +175,12 @@ def gen_case(r, k, same=None, long_=False):
             steps[t]["z"] = list(steps[t - 1]["z"])
             if steps[t]["event"]["kind"] == "restart":
                 steps[t]["boundary"] = steps[t]["boundary"] and r.random() < 0.3
+                if r.random() < 0.4:
+                    # the job that loads the state has a configuration that legally differs: the grids are those of the
+                    # file, the ramp, the cap and applyBias those of the NEW configuration
+                    nf = r.randint(1, 6)
+                    steps[t]["event"]["newcfg"] = {"full": nf, "min": (r.randint(0, nf - 1) if nf > 1 else 0), "cap": r.random() < 0.5,
+                                                   "maxf": [r.choice([0.0, 0.5, 1.0, 2.0, 8.0]) for _ in range(nd)], "apply": r.random() < 0.85}
     for t in range(1, nsteps):
         if steps[t].get("event"):
             steps[t]["z"] = list(steps[t - 1]["z"])
@@ -193,9 +199,26 @@ def gen_case(r, k, same=None, long_=False):
     return c
 
 
+def eff_cfg(c, t):
+    """the configuration of the job that executes step t: that of the case, with the changes of the last restart before or at t"""
+    out = c
+    for u in range(t + 1):
+        nc = c["steps"][u].get("event", {}).get("newcfg") if u < len(c["steps"]) else None
+        if nc:
+            out = dict(c)
+            out.update(nc)
+    return out
+
+
 def apply_at(c, st):
-    """applyBias at a step: the configured value, or what the last `cv bias a set apply_force` left"""
-    return st.get("apply", c["apply"])
+    """applyBias at a step: the configured value (of the job that executes the step), or what the last `cv bias a set apply_force` left"""
+    if "apply" in st:
+        return st["apply"]
+    if any(s_.get("event", {}).get("newcfg") for s_ in c["steps"]):
+        for t, s_ in enumerate(c["steps"]):
+            if s_ is st:
+                return eff_cfg(c, t)["apply"]
+    return c["apply"]
 
 
 def cv_applies(c, st, d):
@@ -449,6 +472,12 @@ def scenario(c):
             L.append("save %s %s.colvars.state" % ("text" if ev["fmt"] in ("text", "str") else "binary", state_name(c, nev)))
             if ev["kind"] == "restart":
                 L.append("new")
+                cnew = dict(c)
+                cnew.update(ev.get("newcfg", {}))
+                for k_ in ("full_cfg", "min_cfg"):
+                    if ev.get("newcfg"):
+                        cnew.pop(k_, None)
+                c = cnew           # later restarts start from this configuration
                 L += config_lines(c)
                 cur_apply = c["apply"]
             if ev["fmt"] in ("str", "buf"):
@@ -516,6 +545,9 @@ def model_case(c, im=None):
             if ds is None:
                 ds = ([0] * nt, [0.0] * (nt * nd))
             parts += ["1" if ev["kind"] == "restart" else "2"] + [str(x) for x in ds[0]] + [V.hexf(g) for g in ds[1]]
+            if ev["kind"] == "restart":
+                nc = ev.get("newcfg")
+                parts += (["1", str(nc["full"]), str(nc["min"]), str(int(nc["cap"]))] + [V.hexf(m_) for m_ in nc["maxf"]]) if nc else ["0"]
             n += 1
         parts += ["0"]
         parts += [V.hexf(colvar_value(v, z)) for v, z in zip(vs, st["z"])]
@@ -807,19 +839,20 @@ def oracle(c, impl_steps, state=None, files=None, loads=None):
                 bad.append(("oracle:af", "step %d: timeStepFactor %d, the variables are asleep but apply the force %s" % (t, tsf, f["af"])))
                 break
             continue
-        exp = expected_abf_force(c, st, f["cnt"], f["sum"])
+        ce = eff_cfg(c, t)
+        exp = expected_abf_force(ce, st, f["cnt"], f["sum"])
         if not all(close(a, b) for a, b in zip(exp, f["cf"])):
             evs = [(u, c["steps"][u]["event"]["kind"], c["steps"][u]["event"]["fmt"]) for u in range(t + 1) if c["steps"][u].get("event")]
-            over = c["cap"] and any(abs(Fr(x)) > Fr(m) and not close(abs(x), m) for x, m in zip(f["cf"], c["maxf"]))
+            over = ce["cap"] and any(abs(Fr(x)) > Fr(m) and not close(abs(x), m) for x, m in zip(f["cf"], ce["maxf"]))
             # the same formula without the cap: is the cap what is wrong?
-            c_nocap = dict(c)
+            c_nocap = dict(ce)
             c_nocap["cap"] = False
             unc = expected_abf_force(c_nocap, st, f["cnt"], f["sum"])
-            cap_active = c["cap"] and any(abs(u_) > Fr(m) for u_, m in zip(unc, c["maxf"]))
+            cap_active = ce["cap"] and any(abs(u_) > Fr(m) for u_, m in zip(unc, ce["maxf"]))
             if over or cap_active:
                 bad.append(("force:cap", "step %d: maxForce %s: the ABF force is %s%s; ramp(count)*mean%s of the arrays at this step (counts %s, sums %s) is %s before the cap, "
                             "so the capped force must be %s (the cap is the last operation: it applies to the zero-mean force)"
-                            % (t, c["maxf"], f["cf"], " (LARGER in magnitude than maxForce)" if over else "",
+                            % (t, ce["maxf"], f["cf"], " (LARGER in magnitude than maxForce)" if over else "",
                                " minus the mean over all bins of the ramped means" if per1 else "", f["cnt"], f["sum"],
                                [float(x) for x in unc], [float(x) for x in exp])))
             elif per1:
